@@ -39,3 +39,6 @@ SPEC = {
         "expired while the network was still lossy are excluded from the release check",
     ],
 }
+
+import vlib  # noqa: E402
+vlib.merge_part(SPEC, "C03gen_part")
